@@ -74,7 +74,8 @@ def abstract(nodes, shared, bounds):
 
 
 def _job(args):
-    arch, wl, metrics, d = args
+    arch, wl, metrics, d = args[:4]
+    knobs = args[4] if len(args) > 4 else None
     try:
         import functools, operator
         from accelforge.frontend.spec import Spec
@@ -92,6 +93,8 @@ def _job(args):
         spec = Spec.from_yaml(pa, pw)
         M = functools.reduce(operator.or_, [getattr(Metrics, m) for m in metrics])
         spec.mapper.metrics = M
+        for k_, v_ in (knobs or {}).items():
+            setattr(spec.mapper, k_, v_)
         pm = ffm.make_pmappings(spec, print_progress=False)
         bounds = get_rank_variable_bounds_for_all_einsums(spec)
         tables = {}
@@ -126,8 +129,8 @@ def run(ck: Check):
                "ENERGY|LATENCY and ENERGY; the per-Einsum tables of make_pmappings are exported row by row (concrete LoopTree + "
                "objective vector); TLC computes the front of all compatible pairs. Non-trivial = case with fused and unfused "
                "compatible pairs; distinct by (spec, metrics).")
-    ck.assumptions += ["capacity-driven rejection and the combination of reservations by lifetimes are not decided here "
-                       "(every combination fits); 3-Einsum join orders are covered by C14's comparison with the exact join only"]
+    ck.assumptions += ["the capacity / lifetime clause is decided for at most one fused loop (mapper knob max_fused_loops = 1); "
+                       "3-Einsum join orders are covered by C14's comparison with the exact join only"]
     rng = random.Random(ck.seed * 13 + 131)
     specs = [chain_yaml(rng) for _ in range(3 if not thorough else 12)]
     jobs = []
@@ -199,10 +202,99 @@ def run(ck: Check):
                          "join_pmappings returned %s; missing %s, extra %s"
                          % (v["id"], v["pairs"], v["joined"], sorted(exp)[:8], sorted(got)[:8], miss, extra),
                          {"arch": job[0], "workload": job[1], "metrics": job[2]})
-        if len(ck.samples) < 3:
+        if len(ck.samples) < 2:
             ck.sample({"case": v["id"], "rows": [len(case["P1"]), len(case["P2"])], "compatible_pairs": v["pairs"],
                        "exhaustive_front": sorted(exp)[:6], "join_front": sorted(got)[:6],
                        "example_pmapping": case["P1"][-1]})
+    capacity_part(ck)
+
+
+def canonical(nodes, bounds):
+    """drop loops with a single iteration (tile = current extent): they change nothing"""
+    ext = dict(bounds)
+    out = []
+    for n in nodes:
+        if n["kind"] == "T":
+            if n["tile"] < ext[n["rv"]]:
+                out.append(n)
+            ext[n["rv"]] = n["tile"]
+        else:
+            out.append(n)
+    return out
+
+
+def capacity_part(ck):
+    """Second half of the statement: combinations that exceed capacity are dropped, reservations combined by
+    lifetimes.  Tight GLB, at most one fused loop (mapper knob max_fused_loops = 1, as in the regression suite);
+    spec/FusedNest.tla merges every compatible pair into one fused tree, computes its peak occupancy and keeps
+    the pairs that fit; the front of their objective sums must equal join_pmappings' front."""
+    from checks import c06
+    thorough = ck.tier == "thorough"
+    rng = random.Random(ck.seed * 17 + 1313)
+    d = os.path.join(ck.work, "cap")
+    specs = []
+    for _ in range(3 if not thorough else 10):
+        a, w, world = c06.chain_spec(rng, 2, glb_choices=(48, 64, 96, 128))
+        specs.append((a, w, world))
+    jobs = [(a, w, ("ENERGY", "LATENCY"), d, {"max_fused_loops": 1}) for a, w, world in specs]
+    with ProcessPoolExecutor(6) as ex:
+        outs = list(ex.map(_job, jobs))
+    cases, meta = [], {}
+    for ji, (job, o) in enumerate(zip(jobs, outs)):
+        ck.evaluations += 1
+        if "exception" in o:
+            ck.impl_errors += 1
+            if ck.impl_error_sample is None:
+                ck.impl_error_sample = {"case": "cap %d" % ji, "traceback": o["exception"] + "\n" + o["traceback"]}
+            continue
+        world = specs[ji][2]
+        names = list(o["tables"])
+        sh = o["shared"][0]
+        P = []
+        for e in names:
+            rows = []
+            for r in o["tables"][e]:
+                obj = [mc.fr(r["energy"]), mc.fr(r["latency"])]
+                if any(x.denominator != 1 for x in obj):
+                    raise Machinery("non-integer objective in a pmapping row")
+                rows.append({"obj": [int(x) for x in obj], "nodes": canonical(r["nodes"], o["bounds"][e])})
+            P.append(rows)
+        cid = "cap%d" % ji
+        cases.append({"id": cid, "world": world, "sh": sh, "P1": P[0], "P2": P[1]})
+        meta[cid] = (job, o)
+    if not cases:
+        raise Machinery("capacity part: no case recorded")
+    path = os.path.join(ck.work, "join_cases.json")
+    json.dump(cases, open(path, "w"))
+    res = ck.tlc("FusedNest", "FusedNest_join.cfg", env={"JOIN_FILE": path, "CASES_FILE": path}, coverage=False,
+                 workers=1, timeout=3000)
+    if not res.ok or len(res.records) != len(cases):
+        raise Machinery("FusedNest join run failed: %s\n%s" % (res.violated, res.tail))
+    binding = 0
+    for v in res.records:
+        job, o = meta[v["id"]]
+        ck.traces += 1
+        exp = {tuple(x) for x in v["front"]}
+        got = {(int(mc.fr(r["energy"])), int(mc.fr(r["latency"]))) for r in o["ret"]}
+        if v["valid"] < v["pairs"]:
+            binding += 1
+            ck.count_nontrivial(("cap", v["id"]))
+        if exp != got:
+            miss, extra = sorted(exp - got)[:4], sorted(got - exp)[:4]
+            kind = "join-misses-front-point" if miss else "join-returns-point-not-on-exhaustive-front"
+            ck.violation("C13/capacity/%s" % kind,
+                         "spec %s (GLB %s bits, max_fused_loops=1): %d compatible pairs, %d fit; exhaustive front %s; "
+                         "join_pmappings returned %s; missing %s, extra %s"
+                         % (v["id"], specs[int(v["id"][3:])][2]["size"]["GLB"], v["pairs"], v["valid"], sorted(exp)[:8],
+                            sorted(got)[:8], miss, extra),
+                         {"arch": job[0], "workload": job[1], "metrics": job[2], "knobs": job[4], "kind": "capacity",
+                          "world": specs[int(v["id"][3:])][2]})
+        if len(ck.samples) < 5:
+            ck.sample({"case": v["id"], "compatible_pairs": v["pairs"], "pairs_that_fit": v["valid"],
+                       "exhaustive_front": sorted(exp)[:6], "join_front": sorted(got)[:6]})
+    ck.extra["capacity_cases_where_capacity_binds"] = binding
+    if binding == 0:
+        raise Machinery("vacuity: capacity did not exclude a single compatible pair in any case")
 
 
 def replay(path):
